@@ -999,13 +999,20 @@ class TestResult(unittest.TestResult):
             self._threads = threadsupport.enumerate()
             if not hasattr(self, "_start_time"):
                 self._start_time = time.time()
-        else:
-            self._restoreStdStreams()
-        unittest.TestResult.addSkip(self, test, reason)
-        self.options.output.test_skipped(test, reason)
-        # tearDown and cleanups still run after a skip raised in the test:
-        # keep buffering their output until ``stopTest``.
-        self._setUpStdStreams()
+        # Report the skip on the original streams, but neither drop what the
+        # test has written so far nor stop capturing: the test goes on
+        # (tearDown and cleanups, or the rest of the test after a skipped
+        # subtest).  If it fails later, all of its output belongs to that
+        # report; otherwise ``stopTest`` discards it.
+        streams = sys.stdout, sys.stderr
+        if self.options.buffer:
+            sys.stdout = self._original_stdout
+            sys.stderr = self._original_stderr
+        try:
+            unittest.TestResult.addSkip(self, test, reason)
+            self.options.output.test_skipped(test, reason)
+        finally:
+            sys.stdout, sys.stderr = streams
 
     def addSubTest(self, test, subtest, exc_info):
         if exc_info is None:
